@@ -132,6 +132,8 @@ def alphabet():
     A = [VNULL, VTRUE, VFALSE]
     A += [num(t) for t in ['-1', '0', '-0', '1', '1.0', '1.00', '2', '0.1', '0.10', '1.5',
                            '12345678901234567890123456789012', '-12345678901234567890123456789012']]
+    # a negative zero cannot be written (the literal -0 evaluates to +0): it only comes out of arithmetic; it equals every zero (seeded change C09_d)
+    A += [V('(0 * -1)', '(VNum 0 0)', 'num'), V('(0.00 / -5)', '(VNum 0 0)', 'num')]
     A += [st(s) for s in ['', 'a', 'ab', 'b', 'B', '1', '\u00e9', '\ufffd', '\U0001F600']]
     A += [date(2021, 1, 1), date(2021, 1, 2), date(2020, 2, 29), date(2020, 12, 31), date(-2021, 1, 1),
           date(999999999, 1, 1), date(999999999, 1, 2), date(-999999999, 12, 31)]
